@@ -47,9 +47,18 @@ func genSetter(rng *hk.Rand, g *genState, client bool) setter {
 			if f == 3 {
 				nk = 3
 			}
-			return setter{K: "mapset", F: f, Key: rng.Range(1, nk), Val: rng.Range(1, 9)}
+			lo := 0 // headers, query and form values may be blank
+			if f == 3 {
+				lo = 1
+			}
+			return setter{K: "mapset", F: f, Key: rng.Range(1, nk), Val: rng.Range(lo, 9)}
 		case k < 55:
-			return setter{K: "mapadd", F: rng.Intn(3), Key: rng.Range(1, 4), Val: rng.Range(1, 9)}
+			f := rng.Intn(3)
+			nk := 4
+			if f == 0 {
+				nk = 5 // incl. the non-canonical header key
+			}
+			return setter{K: "mapadd", F: f, Key: rng.Range(1, nk), Val: rng.Range(0, 9)}
 		case k < 58:
 			return setter{K: "rcount", Val: rng.Range(1, 3)}
 		case k < 60:
@@ -156,6 +165,9 @@ func genSetter(rng *hk.Rand, g *genState, client bool) setter {
 func genProgram(rng *hk.Rand, n int) []op {
 	g := &genState{clients: []int{0}, openReqs: map[int]int{}}
 	p := []op{{K: "newclient", C: 0}}
+	if rng.Chance(30) {
+		p = append(p, genAliasPattern(rng, g)...)
+	}
 	for len(p) < n+1 {
 		switch k := rng.Intn(100); {
 		case k < 55:
@@ -189,6 +201,46 @@ func genProgram(rng *hk.Rand, n int) []op {
 			}
 		}
 	}
+	return p
+}
+
+// the shape in which shared backing storage shows: one appendable thing of client 0 grown ONE ELEMENT AT A
+// TIME (len 3 has cap 4, len 5 has cap 8), Clone, then one more element on both sides in either order
+func genAliasPattern(rng *hk.Rand, g *genState) []op {
+	fam := rng.Intn(10)
+	key := rng.Range(1, 4)
+	one := func() setter {
+		v := rng.Range(1, 9)
+		switch fam {
+		case 0, 1, 2: // header / query / form values of one key
+			return setter{K: "mapadd", F: fam, Key: key, Val: v}
+		case 3:
+			return setter{K: "append", F: 0, Vs: []int{v}}
+		case 4:
+			return setter{K: "append", F: 3, Vs: []int{v}}
+		case 5:
+			return setter{K: "append", F: 4, Vs: []int{v}}
+		case 6:
+			return setter{K: "raddhook", Val: v}
+		case 7:
+			return setter{K: "raddcond", Val: v}
+		case 8:
+			return setter{K: "wrap", Vs: []int{v}}
+		default:
+			return setter{K: "tlsedit", Es: []edit{{K: "cert", V: v}}}
+		}
+	}
+	var p []op
+	for i, n := 0, rng.Range(2, 5); i < n; i++ {
+		p = append(p, cset(0, one()))
+	}
+	p = append(p, op{K: "clone", Src: 0, Dst: 1})
+	g.clients = append(g.clients, 1)
+	a, b := 0, 1
+	if rng.Chance(50) {
+		a, b = 1, 0
+	}
+	p = append(p, cset(a, one()), cset(b, one()))
 	return p
 }
 
@@ -437,6 +489,11 @@ func scenarios() [][]op {
 		{nc, cset(0, setter{K: "sliceset", F: 5, Vs: []int{1, 2, 3}}), cset(0, setter{K: "sliceset", F: 6, Vs: []int{4}}), cset(0, setter{K: "scal", Key: 11, Val: 2}), cset(0, setter{K: "scal", Key: 12, Val: 3}), cset(0, setter{K: "scal", Key: 13, Val: 1}), cset(0, setter{K: "scal", Key: 14, Val: 1}), cset(0, setter{K: "scal", Key: 15, Val: 2}), cset(0, setter{K: "scal", Key: 16, Val: 3}), cset(0, setter{K: "scal", Key: 17, Val: 2}), cl(0, 1), cset(1, setter{K: "sliceset", F: 5, Vs: []int{9}}), cset(0, setter{K: "scal", Key: 12, Val: 1}), cl(1, 2)},
 		// the other value-typed transport / client settings
 		{nc, cset(0, setter{K: "scal", Key: 6, Val: 2}), cset(0, setter{K: "scal", Key: 7, Val: 1}), cset(0, setter{K: "scal", Key: 8, Val: 3}), cset(0, setter{K: "scal", Key: 9, Val: 1}), cset(0, setter{K: "scal", Key: 10, Val: 1}), cset(0, setter{K: "scal", Key: 18, Val: 2}), cset(0, setter{K: "scal", Key: 19, Val: 1}), cset(0, setter{K: "scal", Key: 20, Val: 1}), cset(0, setter{K: "scal", Key: 21, Val: 1}), cl(0, 1), cset(1, setter{K: "scal", Key: 6, Val: 0}), cset(1, setter{K: "scal", Key: 9, Val: 0}), cset(0, setter{K: "scal", Key: 8, Val: 1}), cl(1, 2)},
+		// url.Values: one query / form key grown one value at a time (len 3, cap 4), Clone, both sides add, probes + a clone
+		{nc, cset(0, setter{K: "mapadd", F: 1, Key: 1, Val: 1}), cset(0, setter{K: "mapadd", F: 1, Key: 1, Val: 2}), cset(0, setter{K: "mapadd", F: 1, Key: 1, Val: 3}), cl(0, 1), cset(0, setter{K: "mapadd", F: 1, Key: 1, Val: 4}), cset(1, setter{K: "mapadd", F: 1, Key: 1, Val: 5}), cl(0, 2)},
+		{nc, cset(0, setter{K: "mapadd", F: 2, Key: 2, Val: 1}), cset(0, setter{K: "mapadd", F: 2, Key: 2, Val: 2}), cset(0, setter{K: "mapadd", F: 2, Key: 2, Val: 3}), cl(0, 1), cset(1, setter{K: "mapadd", F: 2, Key: 2, Val: 5}), cset(0, setter{K: "mapadd", F: 2, Key: 2, Val: 4}), cl(1, 2)},
+		// request-level header override: a blank value and a non-canonical key still win over the client's
+		{nc, cset(0, setter{K: "mapset", F: 0, Key: 1, Val: 1}), cset(0, setter{K: "mapadd", F: 0, Key: 5, Val: 2}), cset(0, setter{K: "mapset", F: 1, Key: 1, Val: 3}), op{K: "newreq", C: 0, R: 0}, rset(0, setter{K: "mapset", F: 0, Key: 1, Val: 0}), rset(0, setter{K: "mapadd", F: 0, Key: 5, Val: 4}), rset(0, setter{K: "mapset", F: 1, Key: 1, Val: 0}), op{K: "exec", R: 0}, op{K: "newreq", C: 0, R: 1}, rset(1, setter{K: "mapadd", F: 0, Key: 5, Val: 0}), op{K: "exec", R: 1}},
 		// cookie jars: factory (own jar per clone) and the documented shared plain jar
 		{nc, cset(0, setter{K: "jarstore", Val: 1}), cl(0, 1), cset(1, setter{K: "jarstore", Val: 2}), cset(0, setter{K: "jarstore", Val: 3}), cset(0, setter{K: "jarplain"}), cl(0, 2), cset(2, setter{K: "jarstore", Val: 4}), cset(0, setter{K: "clearcookies"}), cset(1, setter{K: "clearcookies"})},
 	}
